@@ -145,7 +145,7 @@ class C03(Prop):
             hist.append(hist[0])
         return hist
 
-    def reset_case(self, rng, nblocks, bs, nchrom=1, compress=0, light=False):
+    def reset_case(self, rng, nblocks, bs, nchrom=1, compress=0, light=False, fill=False):
         """items_per_slot = 1 and more blocks than the cache holds: a whole-chromosome query makes the caching reader
         clear its block map in the middle of the query; later queries find some blocks cached and some evicted"""
         names = sorted(rng.sample(["chr1", "chr2", "chrX"], nchrom), key=lambda s: s.encode())
@@ -169,6 +169,16 @@ class C03(Prop):
             n = len(items)
             def span(a, b):
                 return (items[a][0], items[min(b, n - 1)][1])
+            if fill:
+                # exactly CACHE_LIMIT distinct blocks cached (no reset yet), all of them read again (hits only),
+                # then one more block (the reset), then evicted blocks
+                lim = min(5000, n)
+                s0, e0 = span(0, lim - 1)
+                hist += [[0, nm, s0, e0], [0, nm, s0, e0]]
+                if n > lim:
+                    hist.append([0, nm, items[lim][0], items[n - 1][1]])
+                hist += [[0, nm, *span(0, 10)], [1, nm, *span(lim - 3, min(n - 1, lim + 2))]]
+                continue
             some = [span(0, 3), span(n - 4, n - 1), span(n // 2, n // 2 + 5), span(1, 1), span(n - 1, n - 1)]
             for (s, e) in some:
                 hist.append([0, nm, s, e])
@@ -179,7 +189,7 @@ class C03(Prop):
             if not light:
                 hist.append([0, nm, items[n // 3][0], length])      # second pass over most blocks
             hist.append([1, nm, items[0][0], items[min(n - 1, 30)][1]])
-        tags = ["cache-reset", "compress=%d" % compress, "ips=1", "bs=%d" % bs, "chroms=%d" % nchrom, "blocks=%d" % nblocks]
+        tags = ["cache-reset" + ("-fill" if fill else ""), "compress=%d" % compress, "ips=1", "bs=%d" % bs, "chroms=%d" % nchrom, "blocks=%d" % nblocks]
         return sx([0, o, sizes, inp, hist]), tags
 
     # ------------------------------------------------------------------ streams
@@ -213,6 +223,8 @@ class C03(Prop):
         else:
             for (nb, bs, nc, comp) in [(5001, 256, 1, 0), (5003, 16, 1, 0), (5200, 256, 2, 0), (5050, 64, 1, 1), (7600, 256, 1, 0), (4999, 256, 1, 0), (5000, 256, 1, 0)]:
                 yield self.reset_case(rng, nb, bs, nc, comp, light=(nb > 5300))
+            yield self.reset_case(rng, 5004, 256, fill=True)
+            yield self.reset_case(rng, 5000, 64, fill=True)
 
     def nontrivial(self, case, tags):
         c = parse_sx(case)
